@@ -26,6 +26,7 @@ ASSUMPTIONS = [
     "reply layouts are real captured replies (tests/testresources) with fields placed at the protocol offsets",
     "amps are judged as |amps - watts/220| <= 0.05 with one decimal, not by a tie-breaking rule",
     "enumerant bytes outside the protocol's values are not sent (the statement covers well-formed replies)",
+    "bytes of a reply outside the decoded fields (header, session echo, device timestamp, name, reserved) are varied too and must not change what is decoded",
 ]
 
 T_CORNERS = [0, 1, 59, 60, 255, 256, 3599, 3600, 3601, 65535, 65536, 86399]
@@ -82,8 +83,9 @@ def all_cases(tier, seed=0):
             s = bytearray(b"\x11\x22\x33\x44")
             s[pos] = v
             cs.append(("login", dict(session=bytes(s).hex())))
-    for s in ("00000000", "ffffffff", "f050834e", "01000000", "00000001"):
+    for s in ("00000000", "ffffffff", "f050834e", "01000000", "00000001", "a1f0fe07", "fef0f0fe", "0a0d2000"):
         cs.append(("login", dict(session=s)))
+    cs += poke_cases()
     return cs
 
 
@@ -151,7 +153,38 @@ def judge(op, f, out, writes, res, case):
     return ok
 
 
+MODELLED = {"get_state": {75, 77, 78} | set(range(89, 101)), "get_breeze_state": {76, 77, 78, 79, 80, 81} | set(range(84, 92)), "get_shutter_state": {76, 78, 79}}
+
+
+def poke_cases():
+    """Bytes of a reply that carry no modelled field (header, echo of the session, device timestamp, name, reserved)
+    set to other values - one at a time, and the marker pairs f0 fe / fe f0 at every header position: same decode."""
+    cs = []
+    bases = {"get_state": dict(on=True, watts=1640, time_left=2700, time_on=2701, auto_off=10800),
+             "get_breeze_state": dict(on=False, mode="heat", fan="high", swing=True, temp_tenths=195, target=30, remote="ZM079055"),
+             "get_shutter_state": dict(position=77, direction="down")}
+    for op, f in bases.items():
+        n = len(build_reply(op, f))
+        for off in range(0, n):
+            if off in MODELLED[op]:
+                continue
+            for v in (0xF0, 0xFE, 0xFF, 0x01, 0x00):
+                cs.append((op, dict(f, poke=[[off, v]])))
+        for off in range(4, 38):
+            if off in MODELLED[op] or off + 1 in MODELLED[op]:
+                continue
+            cs.append((op, dict(f, poke=[[off, 0xF0], [off + 1, 0xFE]])))
+            cs.append((op, dict(f, poke=[[off, 0xFE], [off + 1, 0xF0]])))
+    return cs
+
+
 def build_reply(op, f):
+    if "poke" in f:
+        g = {k: v for k, v in f.items() if k != "poke"}
+        b = bytearray(build_reply(op, g))
+        for off, val in f["poke"]:
+            b[off] = val
+        return bytes(b)
     if op == "get_state":
         return RP.state1(f["on"], f["watts"], f["time_left"], f["time_on"], f["auto_off"])
     if op == "get_shutter_state":
